@@ -63,6 +63,8 @@ var c11Upg = []hdrVariant{
 	{nil, false, false},
 	{[]string{"websocketx"}, false, false},
 	{[]string{"h2c"}, false, false},
+	{[]string{"notwebsocket"}, false, false},
+	{[]string{"h2c, x-websocket-legacy"}, false, false},
 }
 var c11WSVer = []hdrVariant{
 	{[]string{"13"}, true, false},
@@ -297,11 +299,21 @@ func runC11(r *Run) {
 		si = len(c11Subs)
 	}
 	valid := method == "GET" && version != "HTTP/1.0" && cv.ok && uv.ok && wv.ok && kv.ok
+	// the handler sits behind a middleware whose ResponseWriter does not expose
+	// http.Hijacker (http.TimeoutHandler, a plain wrapper struct): the connection
+	// cannot be taken over, so nothing may be answered with 101
+	noHijack := t.Pct(8)
+	if noHijack {
+		valid = false
+	}
 	dontCare := wv.dc
 	if !valid {
 		nPipe = 0
 	}
 	sig := fmt.Sprintf("valid=%v", valid)
+	if noHijack {
+		sig += ",no-hijacker"
+	}
 	r.Class = fmt.Sprintf("%s/%s/%s/c%d/u%d/w%d/k%d/s%d/p%d", sig, method, version, ci, ui, wi, ki, si, nPipe)
 	r.Nontrivial = true
 	r.S.MaxSim = 2 * time.Minute
@@ -356,7 +368,12 @@ func runC11(r *Run) {
 		if compress {
 			mode = websocket.CompressionContextTakeover
 		}
-		c, err := websocket.Accept(hijackCounter{w, &hijacks}, req, &websocket.AcceptOptions{Subprotocols: sv.supported, CompressionMode: mode})
+		var rw http.ResponseWriter = hijackCounter{w, &hijacks}
+		if noHijack {
+			rw = struct{ http.ResponseWriter }{w}
+			r.S.Count("probe.response-writer-without-hijacker")
+		}
+		c, err := websocket.Accept(rw, req, &websocket.AcceptOptions{Subprotocols: sv.supported, CompressionMode: mode})
 		acceptErr = err
 		serverConn = c
 		if err != nil {
